@@ -436,6 +436,14 @@ func vfRunC16Case(env *vfEnv, part *vfPart, caseNo int) {
 			stats["reference_images_recovered"]++
 		}
 		hash = vfMix(hash ^ vfStrHash(snap.canon()))
+		if img.Point == "REWRITE_EXIT" || img.Point == "REWRITE_RENAMED_DAT" {
+			// compaction is a filter: the records of the new rewrite file are a
+			// subsequence (same order, no duplicates) of the records of its inputs
+			if msg := vfC16OrderCheck(img); msg != "" {
+				findings = append(findings, vfE4Finding{Clause: "rewrite-not-a-subsequence", Detail: fmt.Sprintf("image taken at %s: %s", desc, msg)})
+			}
+			stats["rewrite_files_order_checked"]++
+		}
 		diffs := vfC16Diff(snap, refSnap, img.Live, stats)
 		if len(diffs) == 0 {
 			stats["images_equal_to_reference"]++
@@ -633,4 +641,40 @@ func vfC16Diff(img, ref, live *vfSnapshot, stats map[string]int64) []vfC16D {
 		}
 	}
 	return diffs
+}
+
+// vfC16OrderCheck: log-record ids (file index, offset) of the image's rewrite
+// file against the load-order sequence of the compaction's inputs.
+func vfC16OrderCheck(img *vfC16Image) string {
+	var input []vfLogRec
+	for _, r := range vfReadLogRecords(img.I0) {
+		idx := -1
+		if strings.HasPrefix(r.File, "append.aof.") {
+			_, _ = fmt.Sscanf(r.File[11:], "%d", &idx)
+		}
+		if r.File == "rewrite.aof" || (idx >= 0 && idx < img.Cur0) {
+			input = append(input, r)
+		}
+	}
+	pos := 0
+	n := 0
+	for _, r := range vfReadLogRecords(img.Dir) {
+		if r.File != "rewrite.aof" {
+			continue
+		}
+		n++
+		found := false
+		for pos < len(input) {
+			in := input[pos]
+			pos++
+			if in.AofIndex == r.AofIndex && in.AofOffset == r.AofOffset && in.Cmd == r.Cmd && in.LockId == r.LockId {
+				found = true
+				break
+			}
+		}
+		if !found {
+			return fmt.Sprintf("record #%d of the new rewrite.aof (log id %d/%d, cmd %d, L%d) is not found in the input files after the record before it: the compaction reordered or duplicated records (%d input records)", n, r.AofIndex, r.AofOffset, r.Cmd, vfLockIdIndex(r.LockId), len(input))
+		}
+	}
+	return ""
 }
